@@ -11,7 +11,7 @@ E1_NOTE = "Trusted base: the harness's transliteration of the per-transaction se
 CHECKS = {
     "C01": ("txn-mc", "model_checking",
             "explicit-state BFS to closure over event histories; every transition calls the real SendTransaction/RecvTransaction handlers; monitor on every Finished indication",
-            "All reachable states of the real sender/receiver pair under an adversarial link (drop, duplicate, overtake, delay past a timer, payload corruption with CRC on) with a shared fault pool F=1 (quick) / F=2 (thorough), both modes, closure on/off, deferred/immediate NAK with and without delay, Modular/Null checksum, contents chosen to be checksum-neutral in the first/middle/last segment, a stale longer file pre-existing under the destination name, 3-segment files with reordering; at every success indication of either entity and in every terminal state the destination file must equal the source.",
+            "All reachable states of the real sender/receiver pair under an adversarial link (drop, duplicate, overtake, delay past a timer, payload corruption with CRC on) with a shared fault pool F=1 (quick) / F=2 (thorough), both modes, closure on/off, deferred/immediate NAK with and without delay, Modular/Null checksum, contents chosen to be checksum-neutral in the first/middle/last segment, a stale longer file pre-existing under the destination name, 3-segment files with reordering, CRC on with payload/offset/CRC-octet corruption (also with the Null file checksum); at every success indication of either entity and in every terminal state the destination file must equal the source.",
             E1_NOTE, "DESIGN.md section 4 C01"),
     "C02": ("txn-mc", "model_checking",
             "explicit-state BFS to closure over the real handlers; terminal-state oracle plus deadlock and cycle (livelock) detection on the state graph",
@@ -19,19 +19,19 @@ CHECKS = {
             E1_NOTE, "DESIGN.md section 4 C02"),
     "C03": ("txn-mc", "model_checking",
             "explicit-state BFS to closure with blackout as an ordinary event (placed before/after every PDU), graph conditions: no deadlock state, no cycle, time bound per path",
-            "Blackout of either/both directions at every state of the exchange, alone, combined with one fault (drop/dup/delay), combined with a user cancel at either entity and one fault, and with a NAK prompt at any state; plus independently the C02 fault pool; both modes, closure, NAK procedures, max_count 2 (and 3 thorough), default and Abandon handlers: no Active transaction is ever left without an enabled event (deadlock), the time-abstract state graph is acyclic (no livelock), and every transaction ends within (max_count+1)*(inactivity+ack+nak) virtual seconds after the last PDU delivered to it.",
+            "Blackout of either/both directions at every state of the exchange, alone, combined with one fault (drop/dup/delay), combined with a user cancel at either entity and one fault, and with a NAK or keep-alive prompt at any state (also in unacknowledged mode with closure); plus independently the C02 fault pool; both modes, closure, NAK procedures, max_count 2 (and 3 thorough), default and Abandon handlers: no Active transaction is ever left without an enabled event (deadlock), the time-abstract state graph is acyclic (no livelock), and every transaction ends within (max_count+1)*(inactivity+ack+nak) virtual seconds after the last PDU delivered to it.",
             E1_NOTE + " The daemon-level clause (keeps serving other transactions) is part of C11's daemon-dbx runs.", "DESIGN.md section 4 C03"),
     "C04": ("txn-mc", "model_checking",
             "explicit-state BFS to closure with straggler re-delivery of every PDU ever sent, armed from the receiver's first success indication",
-            "After the receiver's first NoError/Complete indication every single (quick) / double (thorough) re-delivery of any previously sent PDU, combined with F drops of ACK(EOF)/Finished/ACK(Finished): receiver filestore snapshot (destination and the files of a non-idempotent append request) never changes, no checksum/size failure is reported or sent, the sender reports success only if the receiver did. File transfers and request-only transactions, Modular and Null checksum, acknowledged and unacknowledged+closure.",
+            "After the receiver's first NoError/Complete indication every single (quick) / double (thorough) re-delivery of any previously sent PDU, combined with F drops of ACK(EOF)/Finished/ACK(Finished): receiver filestore snapshot (destination and the files of a non-idempotent append request) never changes, no checksum/size failure is reported or sent, the sender reports success only if the receiver did. File transfers and request-only transactions, Modular and Null checksum, acknowledged and unacknowledged+closure; plus a bad EOF (wrong checksum / size) injected before completion, after which the sender must not claim NoError/Complete.",
             E1_NOTE, "DESIGN.md section 4 C04"),
     "C07": ("txn-mc", "model_checking",
             "explicit-state BFS to closure; the explorer injects NAK PDUs from an alphabet of conforming and non-conforming request lists at every state; monitor on every PDU the sender emits",
-            "Every PDU the real sender hands to the transport is checked: file data bytes/offset/length against the source, first pass tiles the file once in order before EOF, retransmissions lie inside what was requested and everything requested inside the file is retransmitted before the sender goes idle, cursor unchanged by retransmissions, metadata/EOF fields (size, names, reference checksum), header ids/mode/direction, length field through encode/decode. NAK alphabet: empty, beyond EOF, longer than a segment, overlapping, unsorted, duplicated, the 0-0 marker; 1 (quick) / 2 (thorough) injected NAKs also during the first pass; plus real-receiver NAKs under F faults.",
+            "Every PDU the real sender hands to the transport is checked: file data bytes/offset/length against the source, first pass tiles the file once in order before EOF, retransmissions lie inside what was requested and everything requested inside the file is retransmitted before the sender goes idle, cursor unchanged by retransmissions, metadata/EOF fields (size, names, reference checksum), header ids/mode/direction, length field through encode/decode. NAK alphabet: empty, beyond EOF, longer than a segment, overlapping, unsorted, duplicated, the 0-0 marker; 1 (quick) / 2 (thorough) injected NAKs also during the first pass; real-receiver NAKs under F faults; user suspend/resume at the sender at every state.",
             E1_NOTE + " Inverted ranges (start > end) are not in the alphabet: the property does not list them.", "DESIGN.md section 4 C07"),
     "C08": ("txn-mc", "model_checking",
             "explicit-state BFS to closure with drops-only pools large enough for every loss subset; fill-time oracle on the receiver's request queue (hook H3) and per-PDU well-formedness",
-            "Every subset of lost metadata/data segments for files of 0..2 (3 thorough) segments, EOF first / data after EOF / duplicated EOF / one prompt under F faults, four NAK procedures, segment size 16 (one request per NAK PDU) and 20/28 (capacity not a multiple of the request size, several separate gaps): each NAK request non-empty or the marker, inside scope and file, PDU within the configured size, no unsolicited NAK before EOF (deferred), new gaps requested at once or after the delay (immediate), and whenever the request list is computed after EOF it equals exactly the bytes not yet delivered (+marker iff metadata missing); the receiver never finishes while something is missing.",
+            "Every subset of lost metadata/data segments for files of 0..2 (3 thorough) segments, EOF first / data after EOF / duplicated EOF / one prompt under F faults, four NAK procedures, segment size 16 (one request per NAK PDU) and 20/28 (capacity not a multiple of the request size, several separate gaps), 24 with delayed checks of different windows falling due together, link latency (wait events) giving delayed checks different due times, suspend/resume at the receiver: each NAK request non-empty or the marker, inside scope and file, PDU within the configured size, no unsolicited NAK before EOF (deferred), new gaps requested at once or after the delay (immediate), and whenever the request list is computed after EOF it equals exactly the bytes not yet delivered (+marker iff metadata missing); the receiver never finishes while something is missing.",
             E1_NOTE, "DESIGN.md section 4 C08"),
     "C10": ("txn-mc", "model_checking",
             "explicit-state BFS to closure with one user cancel placed at every state, at either entity",
@@ -39,11 +39,11 @@ CHECKS = {
             E1_NOTE, "DESIGN.md section 4 C10"),
     "C18": ("txn-mc", "model_checking",
             "explicit-state BFS to closure over unacknowledged-mode scenarios",
-            "Unacknowledged mode x closure off/on x sizes 0,1,seg,2seg+1 x zero/neutral contents x every single (quick) / double (thorough) loss, duplication, overtaking, and blackout: the receiver never sends ACK/NAK/keep-alive (nor Finished without closure), the sender sends metadata, each segment and EOF exactly once, with closure the Finished PDU states the receiver's true outcome and the sender ends only after receiving it or exhausting a limit and reports that outcome, a receiver missing data or metadata never reports Complete, and both transactions end.",
+            "Unacknowledged mode x closure off/on x sizes 0,1,seg,2seg+1 x zero/neutral contents x every single (quick) / double (thorough) loss, duplication, overtaking, and blackout: the receiver never sends ACK/NAK/keep-alive (nor Finished without closure), the sender sends metadata, each segment and EOF exactly once, with closure the Finished PDU states the receiver's true outcome and the sender ends only after receiving it or exhausting a limit and reports that outcome, a receiver missing data or metadata never reports Complete, a Finished PDU reaching the closure sender in any phase is reported to its user, and both transactions end (also under a user cancel at either side).",
             E1_NOTE, "DESIGN.md section 4 C18"),
     "C19": ("txn-mc", "model_checking",
             "explicit-state BFS to closure with suspend and resume placed at every pair of states, idle time while suspended",
-            "User suspend then resume at every pair of states at sender or receiver, idle periods of 1 and 10 timer periods while everything is paused, optional drop: while suspended the entity emits no Metadata/FileData/EOF/NAK/Finished and declares no Fault/Abandon; after resume, when no peer timer expired during the suspension, the C02 terminal clauses hold.",
+            "User suspend then resume at every pair of states at sender or receiver, idle periods of 1 and 10 timer periods while everything is paused, optional drop: while suspended the entity emits no Metadata/FileData/EOF/NAK/Finished and declares no Fault/Abandon; after resume, when no peer timer expired during the suspension, the C02 terminal clauses hold; a Prompt requested during the suspension and F=2 losses around a receiver suspension are included.",
             E1_NOTE + " The select! guard itself is exercised by the daemon-dbx conformance runs.", "DESIGN.md section 4 C19"),
     "C20": ("txn-mc", "model_checking",
             "explicit-state BFS to closure with keep-alive prompts, suspend/resume and limit faults at every state; the monitor keeps its own bit set of delivered bytes",
@@ -55,19 +55,19 @@ CHECKS = {
             "Boundary alphabets for numeric and string fields, not all values; only well-formed values are generated. One known finding (PDU::encoded_len overflows u16 for > 64 KiB PDUs) is listed in known_findings.json.", "DESIGN.md section 4 C05"),
     "C06": ("enum", "exploration",
             "bounded exhaustive enumeration of byte strings and of the mutation neighbourhood of a PDU corpus through every public decoder, under a counting global allocator; plus a running daemon fed with the rejected inputs",
-            "All byte strings of length <= 2 (quick) / 3 (thorough) and boundary-alphabet strings of length <= 6 / 8 through PDU::decode and every per-type decoder; for each corpus PDU (16 shapes x 2 file-size flags x 2 CRC settings) every truncation, every single-byte substitution, length/flag fields forced to boundary values; all 2^16 header lengths x CRC flag: no panic (overflow checks on), no single allocation above 256 KiB, and whatever is accepted re-encodes (length recomputed) and decodes to itself.",
+            "All byte strings of length <= 2 (quick) / 3 (thorough) and boundary-alphabet strings of length <= 6 / 8 through PDU::decode and every per-type decoder; for each corpus PDU (16 shapes x 2 file-size flags x 2 CRC settings) every truncation, every single-byte substitution, length/flag fields forced to boundary values, every octet forced to 0xFF/0xFE with 300 filler octets present behind it; all 2^16 header lengths x CRC flag: no panic (overflow checks on), no single allocation above 256 KiB, and whatever is accepted re-encodes (length recomputed) and decodes to itself.",
             "Length- and alphabet-bounded; two pruning rules (documented with their soundness argument in en_decode.rs) skip strings whose outcome is determined by a shorter prefix.", "DESIGN.md section 4 C06"),
     "C11": ("daemon-dbx", "model_checking",
             "deviation-bounded exhaustive scheduling of 2-3 real Daemon tasks (CHESS-style iterative bounding over take/deliver/drop/advance/user/stray choices) with per-transaction differential twins driven by the observed loop steps (hook H5)",
-            "Real daemons A, B (C thorough) with really spawned transaction tasks on a paused clock; T1 A->B acknowledged, T2 B->A unacknowledged with the same sequence number, T3 sharing A's transport slot, three Puts with the sequence counter starting at U8(254); every schedule with <= 2 (quick) / 3 (thorough) deviations from the default, deviations being cross-transaction reordering, drops, overtaking, stray PDUs (responses for senders that do not exist, an entity without transport, file data for an unknown id, replays of delivered PDUs, PDUs reflected back to the daemon that sent them) at any point: Put ids distinct, each transaction's PDUs, indications, destination file and termination equal those of its isolated twin, daemons keep running and answering Report/Put after every stray, stray-started receivers end by their limits. The same runs validate E1's loop model against the real select! loops (single-transaction conformance).",
+            "Real daemons A, B (C thorough) with really spawned transaction tasks on a paused clock; T1 A->B acknowledged, T2 B->A unacknowledged with the same sequence number, T3 sharing A's transport slot, three Puts with the sequence counter starting at U8(254); every schedule with <= 2 (quick) / 3 (thorough) deviations from the default, deviations being cross-transaction reordering, drops, overtaking, stray PDUs (responses for senders that do not exist, an entity without transport, file data for an unknown id, replays of delivered PDUs, PDUs reflected back to the daemon that sent them), a burst of more copies of one PDU than a transaction's command queue holds, per-entity configurations that differ from the daemons' default at any point: Put ids distinct, each transaction's PDUs, indications, destination file and termination equal those of its isolated twin, daemons keep running and answering Report/Put after every stray, stray-started receivers end by their limits. The same runs validate E1's loop model against the real select! loops (single-transaction conformance).",
             "Tens of transactions are not reached: 3 transactions, 3 daemons. A transaction sends as soon as its slot is free and time does not pass while a slot is full. Twin divergence in single-transaction scenarios is reported as machinery error (MODEL-DIVERGENCE), in multi-transaction scenarios as isolation violation.", "DESIGN.md section 4 C11"),
     "C12": ("enum", "exploration",
             "bounded exhaustive enumeration of path names over a component alphabet for every filestore entry point; lexical oracle with an independent resolver plus before/after snapshot of everything outside the root",
-            "All names of <= 4 (quick) / 5 (thorough) components over {a, ., .., empty, the absolute root path, a sibling whose name extends the root's} with and without leading '/', through get_native_path, create/delete/rename/append/replace, create/remove/list directory, open (read, create-write), get_size and process_request with all nine actions, in a jail whose content outside the root is snapshotted around every operation.",
+            "All names of <= 4 (quick) / 5 (thorough) components over {a, ., .., empty, the absolute root path, a sibling whose name extends the root's} with and without leading '/', through get_native_path, create/delete/rename/append/replace, create/remove/list directory, open (read, create-write), get_size and process_request with all nine actions, in a jail whose content outside the root is snapshotted around every operation and whose outside files carry a canary text that must never appear inside the root.",
             "The harness's own path resolver and snapshot are trusted; operations whose effective path lies outside the jail are not executed (the harness runs as root) but reported. Symlinks are not part of the alphabet.", "DESIGN.md section 4 C12"),
     "C13": ("seq-mc", "model_checking",
             "explicit-state BFS over filestore states: every transition is the real NativeFileStore::process_request on a re-materialised tree, compared with a pure reference model; plus txn-mc scenarios carrying request lists",
-            "Dispatcher: from every consistent tree over the namespace {f1,f2,d1,d1/f3,d2} all nine actions x first x second name (incl. a missing name and the empty name) to depth 2 (quick) / 3 (thorough): status code, echoed names and the whole resulting tree must equal the reference, a failed request changes nothing. Transaction level (txn-mc): request lists [create, append (non-idempotent), delete-missing (fails), rename] under the C02/C04 fault budgets, under a receiver cancel, and under losses the checksum cannot see (Null checksum, zero content) in unacknowledged mode: no effect before the success indication, each effect once, in order, not-performed after the first failure or when delivery failed, same responses in the receiver's indication, the Finished PDU and the sender's indication.",
+            "Dispatcher: from every consistent tree over the namespace {f1,f2,d1,d1/f3,d2} all nine actions x first x second name (incl. a missing name and the empty name) to depth 2 (quick) / 3 (thorough): status code, echoed names and the whole resulting tree must equal the reference, a failed request changes nothing. Transaction level (txn-mc): request lists [create, append (non-idempotent), delete-missing (fails), rename] under the C02/C04 fault budgets, under a receiver cancel, under an injected bad EOF, and under losses the checksum cannot see (Null checksum, zero content) in unacknowledged mode: no effect before the success indication, each effect once, in order, not-performed after the first failure or when delivery failed, same responses in the receiver's indication, the Finished PDU and the sender's indication.",
             "Reference semantics follow the repository's own process_failures tests where CFDP and the code differ; seven classes the statement leaves open are listed under coverage.unconstrained_cases and never flagged.", "DESIGN.md section 4 C13"),
     "C14": ("enum", "exploration",
             "bounded exhaustive enumeration of contents, lengths and read-chunk schedules against the checksum definition written naively",
@@ -79,7 +79,7 @@ CHECKS = {
             "'Any odd number of flips' is covered for weight 1, weight 3 within 24 bits and the odd patterns inside bursts; the general statement is a theorem about the polynomial.", "DESIGN.md section 4 C15"),
     "C16": ("enum", "fault_enumeration",
             "exhaustive two-step histories on the real UdpTransport over loopback: every truncation of every datagram after every other datagram, differential against decoding the bytes alone",
-            "Corpus of 14 (quick) / 40 (thorough) valid datagrams (all PDU types, with/without CRC); for every ordered pair (L, V) and every truncation length t in 0..=len(V): send L, receive, send V[..t], receive on a fresh transport; the second result must equal PDU::decode(V[..t]) computed on those bytes alone, the first decode(L).",
+            "Corpus of 14 (quick) / 40 (thorough) valid datagrams (all PDU types, with/without CRC); for every ordered pair (L, V) and every truncation length t in 0..=len(V): send L, receive, send V[..t], receive on a fresh transport; the second result must equal PDU::decode(V[..t]) computed on those bytes alone and must be a rejection for every proper truncation, the first decode(L); a receive() call that produces nothing is kept alive across a sentinel datagram to see whether the truncated bytes were held and completed.",
             "Needs loopback UDP (available in this sandbox; the repository's own integration tests need it too).", "DESIGN.md section 4 C16"),
     "C17": ("txn-mc", "model_checking",
             "explicit-state BFS to closure with blackout at every state and delay faults, exact virtual timestamps; plus explicit-state search of the real Counter against an integer reference",
